@@ -253,7 +253,7 @@ async def exec_case(ctx, r: random.Random, index: int):
         "outputs": ["o1.txt"] + (["o2.txt"] if r.random() < 0.3 else []),
         "pre_change": None, "post_change": None, "rc": 0 if r.random() < 0.85 else r.choice([1, 2]),
         "skip_output": r.random() < 0.15, "cancel_pre": r.random() < 0.04, "cancel_post": r.random() < 0.05,
-        "amend": [], "unconfirm": None, "defer_direct": None,
+        "amend": [], "unconfirm": None, "defer_direct": None, "race": None,
     }
     all_inputs = list(sc["inputs"]) + (["g.txt"] if sc["built_input"] else [])
     if r.random() < 0.12:
@@ -262,6 +262,13 @@ async def exec_case(ctx, r: random.Random, index: int):
         sc["post_change"] = (r.choice(all_inputs), r.choice(["edit", "edit", "remove"]))
     if r.random() < 0.15:
         sc["unconfirm"] = r.choice(sc["inputs"])
+    # another request touches the row of a changed input between the hash computation (outside a
+    # transaction) and the transaction that records the change: re-declared, or recorded as gone
+    if sc["pre_change"] is not None and r.random() < 0.5 and sc["pre_change"][0] != "g.txt":
+        sc["race"] = (1, sc["pre_change"][0], "unconfirm" if sc["pre_change"][1] == "edit" or r.random() < 0.5 else "missing")
+    elif sc["post_change"] is not None and r.random() < 0.5 and sc["post_change"][0] != "g.txt" \
+            and sc["post_change"][0] != sc["unconfirm"]:
+        sc["race"] = (2, sc["post_change"][0], "unconfirm" if sc["post_change"][1] == "edit" or r.random() < 0.5 else "missing")
     k = r.random()
     if k < 0.45:
         pool = ["d.txt", "data/x.dat", "g2.txt"] if r.random() < 0.55 else \
@@ -378,7 +385,18 @@ async def exec_case(ctx, r: random.Random, index: int):
                     phase["n"] += 1
                     if (phase["n"] == 1 and sc["cancel_pre"]) or (phase["n"] == 2 and sc["cancel_post"]):
                         raise HashCancelledError("cancelled")
-                    return self.work(threading.Event())
+                    result = self.work(threading.Event())
+                    if sc["race"] is not None and sc["race"][0] == phase["n"]:
+                        _, rpath, rkind = sc["race"]
+                        async with db:
+                            f = wf.find(File, rpath)
+                            if rkind == "unconfirm":
+                                f.detach()
+                                wf.declare_static_files(wf.find(Step, "./plan.py"), [rpath])
+                            else:
+                                wf.update_file_hashes({rpath: FileHash.unknown()}, cause=HashUpdateCause.FAILED)
+                        obs["raced"] = rpath
+                    return result
 
                 def interrupt(self, sig):
                     pass
@@ -473,7 +491,8 @@ async def exec_case(ctx, r: random.Random, index: int):
             lines.append("c03 exec " + " ".join([
                 _tok(dispatch_inputs), _tok({p: disk_pre[p] for p in disk_pre}), str(int(sc["cancel_pre"])), str(sc["rc"]),
                 str(int(defer_called)), hexlist(amend_unav), hexlist(amend_unfresh), _tok(completion), hexlist(sc["outputs"]),
-                _tok(disk_post), str(int(sc["cancel_post"])), "9", str(int(interrupted)), str(int(keep_going))]))
+                _tok(disk_post), str(int(sc["cancel_post"])), "9", str(int(interrupted)), str(int(keep_going)),
+                hexlist([obs["raced"]] if obs.get("raced") else [])]))
             if len(obs["completed"]) != 1:
                 answers.append(f"completions={obs['completed']}")
             else:
